@@ -166,7 +166,8 @@ def _impl(tier, seed, search):
                                                             'rpy(xyz)': lambda Z: Z.rpy(order='xyz'), 'rpy(yxz)': lambda Z: Z.rpy(order='yxz'), 'rpy(deg)': lambda Z: Z.rpy(unit='deg'),
                                                             'eul(deg)': lambda Z: Z.eul(unit='deg'), 'eul(flip)': lambda Z: Z.eul(flip=True), 'eul(flip,deg)': lambda Z: Z.eul(unit='deg', flip=True), 'angvec(deg)': lambda Z: Z.angvec(unit='deg')})
                     if c in ('SO2', 'SE2'): methods.update({'theta': lambda Z: Z.theta(), 'theta(deg)': lambda Z: Z.theta(unit='deg')})
-                    if c == 'SE2': methods['xyt'] = lambda Z: Z.xyt()
+                    if c == 'SE2': methods['xyt'] = lambda Z: Z.xyt(); methods['SE3()'] = lambda Z: Z.SE3()
+                    if c == 'SO2': methods['SE2()'] = lambda Z: Z.SE2()
                     p = g.normal(size=2 if c in ('SO2', 'SE2') else 3)
                     methods['*point'] = lambda Z: Z * p
                 elif c in ('Quaternion', 'UnitQuaternion'):
